@@ -88,6 +88,7 @@ inductive Op where
   | termMac (mac : Nat)
   | termUser (user : Nat)
   | termAll
+  | authFail (name : Nat)          -- what the server does on a rejected PAP: Authenticated := false, state Closed
   deriving Repr, DecidableEq
 
 def step (s : TD) : Op → TD
@@ -113,6 +114,12 @@ def step (s : TD) : Op → TD
         | some o => o.user == u
         | none => false)).foldl (fun st p => terminate st p.2) s
   | .termAll => s.live.foldl (fun st p => terminate st p.2) s
+  | .authFail n =>
+    match AMap.lookup s.objs n with
+    | some o =>
+      -- on a session that is already torn down the flag is never read again
+      if o.tornDown then s else { s with objs := AMap.insert s.objs n { o with authed := false } }
+    | none => s
 
 def run (s : TD) (ops : List Op) : TD := ops.foldl step s
 
